@@ -914,6 +914,152 @@ func resetObjectOnly(names []string, h int, created map[snapKey]bool) bool {
 	return found
 }
 
+// zeroEntryShape decides FROM THE OP LINES (and the ops' own result words) whether a twin case contains the defining shape of the
+// recorded finding revert-leaves-zero-token-entry on handle 0: a RevertToSnapshot whose reverted region contains
+//
+//	(1) a token credit / SetTokenBalance (addtok v!=0, settok; token != native) to an (account, token) pair that had no entry when
+//	    it was written (SetTokenBalance inserts Tokens[t]=0 before journalling; the undo writes the 0 back), or
+//	(2) a successful suicide of an account holding token entries (suicideChange.revert re-installs only the positive ones: the
+//	    mirror image of the same un-journalled zero entries).
+//
+// "has an entry" is tracked conservatively where the op lines cannot tell: towards ABSENT for (1) (after suicide/create of the account,
+// after a root/commit with deleteEmptyObjects or of a suicided account, after reset/reopen), towards PRESENT for (2) (the account ever
+// received a token write).  Returns "" if the shape is absent.
+func zeroEntryShape(ops, impl []string) string {
+	type ev struct {
+		kind   int // 0 token write, 1 map cleared (suicide / create)
+		a, t   int
+		absent bool
+		held   bool // kind 1: the account held entries
+	}
+	type frame struct {
+		id      int
+		start   int
+		present map[pair]bool
+	}
+	present := map[pair]bool{}
+	var evs []ev
+	var frames []frame
+	suicided := map[int]bool{}
+	everTok := map[int]bool{} // accounts that ever received a token write: for shape (2) presence is over-approximated
+	clearAcct := func(a int) {
+		for p := range present {
+			if p.a == a {
+				delete(present, p)
+			}
+		}
+	}
+	holds := func(a int) bool {
+		for p := range present {
+			if p.a == a {
+				return true
+			}
+		}
+		return false
+	}
+	shape := ""
+	for i, op := range ops {
+		if i >= len(impl) {
+			break
+		}
+		toks := hx.Tokens(op)
+		if len(toks) == 0 {
+			continue
+		}
+		name := toks[0]
+		if name == "new" {
+			break // the twin's replay starts here
+		}
+		if h, ok := argInt(toks, "h", 0, maxInt); !ok || h != 0 {
+			continue
+		}
+		res, _, ok := splitAnswer(impl[i])
+		if !ok {
+			continue // panic / bad-op: nothing happened
+		}
+		a, _ := argInt(toks, "a", 0, nAddr-1)
+		switch name {
+		case "snap":
+			id, err := strconv.Atoi(strings.TrimPrefix(res, "id="))
+			if err != nil {
+				continue
+			}
+			cp := make(map[pair]bool, len(present))
+			for p := range present {
+				cp[p] = true
+			}
+			frames = append(frames, frame{id, len(evs), cp})
+		case "revert":
+			id, _ := argInt(toks, "id", 0, maxInt)
+			j := -1
+			for k := range frames {
+				if frames[k].id == id {
+					j = k
+				}
+			}
+			if j < 0 || res != "ok" {
+				continue
+			}
+			region := evs[frames[j].start:]
+			present = frames[j].present
+			for _, e := range region {
+				if e.kind == 1 {
+					if e.held && shape == "" {
+						shape = fmt.Sprintf("op %d reverts a suicide/create of token holder a%d", i, e.a)
+					}
+					clearAcct(e.a)
+				}
+			}
+			for _, e := range region {
+				if e.kind == 0 {
+					if e.absent {
+						shape = fmt.Sprintf("op %d reverts a token credit to (a%d, t%d), which had no entry", i, e.a, e.t)
+					}
+					present[pair{e.a, e.t}] = true
+				}
+			}
+			evs = evs[:frames[j].start]
+			frames = frames[:j]
+		case "addtok", "settok", "subtok":
+			t, _ := argInt(toks, "t", 0, nTok-1)
+			v, _ := hx.Arg(toks, "v")
+			if t == 0 || res != "ok" || (name != "settok" && v == "0") {
+				continue
+			}
+			p := pair{a, t}
+			evs = append(evs, ev{kind: 0, a: a, t: t, absent: !present[p] && name != "subtok"})
+			present[p] = true
+			everTok[a] = true
+		case "suicide":
+			if res != "ret=true" {
+				continue
+			}
+			evs = append(evs, ev{kind: 1, a: a, held: holds(a) || everTok[a]})
+			clearAcct(a)
+			suicided[a] = true
+		case "create":
+			// a reset object starts with a fresh map; reverting it brings the old map back as it was: no zero-entry effect
+			evs = append(evs, ev{kind: 1, a: a, held: false})
+			clearAcct(a)
+		case "root", "commit":
+			d, _ := argInt(toks, "del", 0, 1)
+			if d == 1 {
+				present = map[pair]bool{}
+			}
+			for x := range suicided {
+				clearAcct(x)
+			}
+			suicided = map[int]bool{}
+			evs, frames = nil, nil
+		case "reset", "reopen", "rollback":
+			present = map[pair]bool{}
+			suicided = map[int]bool{}
+			evs, frames = nil, nil
+		}
+	}
+	return shape
+}
+
 const cleanHeader = "r=0;L=||;n=0;P=.|.|."
 
 // splitDump splits a handle dump body "[r=..;L=..;n=..;P=..;a0/../a5]" into the header part and the account part.
@@ -955,7 +1101,8 @@ func (P) Monitor(c *hx.CaseRun) []hx.Failure {
 	mode := -1
 	snaps := map[snapKey]string{}
 	copied := map[int]bool{}      // handles that were the source or the target of an earlier successful copy
-	created := map[snapKey]bool{} // (handle, address) of earlier successful `create` ops
+	created := map[snapKey]bool{} // (handle, address) of earlier successful `create` ops over an existing account, not dirtied again since
+	openSnaps := map[int]int{}    // snapshots taken on a handle since its last root/commit/reset (a later mutator might still be reverted)
 	// M8: snapshot ids issued before / since the latest successful reset/reopen/rollback of a handle
 	issuedBefore, issuedSince := map[snapKey]bool{}, map[snapKey]bool{}
 	// M6/M7 (tag blocks, handle 0)
@@ -1048,9 +1195,42 @@ func (P) Monitor(c *hx.CaseRun) []hx.Failure {
 		if name == "copy" && res == "ok" && to >= 0 {
 			copied[h], copied[to] = true, true
 		}
+		// copy-misses-reset-object applies only to its defining shape: `create` over an account that EXISTED (resetObjectChange is the
+		// entry that is not counted dirty; a createObjectChange is) and that no later un-revertable mutator dirtied again.
+		if name == "snap" && strings.HasPrefix(res, "id=") {
+			openSnaps[h]++
+		}
+		if name == "root" || name == "commit" || name == "reset" || name == "reopen" || name == "rollback" {
+			openSnaps[h] = 0
+		}
+		if a, ok := argInt(toks, "a", 0, nAddr-1); ok && name != "create" && openSnaps[h] == 0 && prev != nil {
+			// the op visibly changed the account (so it journalled a change) and no snapshot is open that could undo it: dirty for good
+			if pd, was := prev[h]; was {
+				_, pa, ok1 := splitDump(pd)
+				_, ca, ok2 := splitDump(cur[h])
+				if ok1 && ok2 {
+					x, y := strings.Split(pa, "/"), strings.Split(ca, "/")
+					if a < len(x) && a < len(y) && x[a] != y[a] {
+						delete(created, snapKey{h, a})
+					}
+				}
+			}
+		}
 		if name == "create" && res == "ok" {
 			if a, ok := argInt(toks, "a", 0, nAddr-1); ok {
-				created[snapKey{h, a}] = true
+				existed := false
+				if prev != nil {
+					if pd, was := prev[h]; was {
+						if _, pa, ok1 := splitDump(pd); ok1 {
+							if accts := strings.Split(pa, "/"); a < len(accts) && accts[a] != "-" {
+								existed = true
+							}
+						}
+					}
+				}
+				if existed {
+					created[snapKey{h, a}] = true
+				}
 			}
 		}
 		// M10
@@ -1222,7 +1402,12 @@ func (P) Monitor(c *hx.CaseRun) []hx.Failure {
 			r2, d2, okB := splitAnswer(c.Impl[n-1])
 			if ok1 && ok2 && okA && okB && strings.HasPrefix(r1, "class=") && strings.HasPrefix(r2, "class=") && r1 != r2 {
 				if d2[h1] == d2[h2] {
-					fail("twin_root", "revert-leaves-zero-token-entry", fmt.Sprintf("handles %d and %d answer every getter identically but their roots differ (%s vs %s)", h1, h2, r1, r2))
+					// a root-only difference is the recorded finding ONLY when the op lines show its defining shape
+					if shape := zeroEntryShape(c.Ops, c.Impl); shape != "" {
+						fail("twin_root", "revert-leaves-zero-token-entry", fmt.Sprintf("handles %d and %d answer every getter identically but their roots differ (%s vs %s); shape: %s", h1, h2, r1, r2, shape))
+					} else {
+						fail("twin_root", "twin-root-differs", fmt.Sprintf("handles %d and %d answer every getter identically but their roots differ (%s vs %s), and no reverted token credit to a pair without an entry (nor a reverted suicide of a token holder) explains it", h1, h2, r1, r2))
+					}
 				} else {
 					_, msgs := diffDump(d2[h1], d2[h2])
 					fail("twin_root", "twin-differs", fmt.Sprintf("handles %d and %d differ after the effective op list: %s", h1, h2, strings.Join(msgs, "; ")))
